@@ -61,6 +61,41 @@ def run_impl(case, d):
     except Exception as e:
         import traceback
         res["bd_error"] = type(e).__name__ + ": " + str(e)[:200] + " @ " + traceback.format_exc()[-300:]
+    if "bd_error" not in res and case.get("case_no", 0) % 2 == 0:
+        # history (the documented what-if workflow, last step of the case): one edge ON the path is replaced by a copy one unit lighter and
+        # critical_path() is called again; the breakdown is then about THAT path: one row per edge object now on it, durations adding up to it
+        try:
+            from hta.analyzers.critical_path_analysis import CPEdge
+            rng = random.Random(case["params"]["pseed"] + 17)
+            nodes = list(g.critical_path_nodes)
+            cands = [(u, v) for u, v in zip(nodes, nodes[1:]) if g.edges[u, v]["object"].weight >= 2]
+            if cands:
+                u, v = rng.choice(cands)
+                old = g.edges[u, v]["object"]
+                new = CPEdge(begin=old.begin, end=old.end, weight=old.weight - 1, type=old.type)
+                g.add_edge(u, v, weight=new.weight, object=new)
+                problems = []
+                if not g.critical_path():
+                    problems.append("critical_path() did not succeed")
+                else:
+                    n2 = list(g.critical_path_nodes)
+                    objs = [g.edges[a, b]["object"] for a, b in zip(n2, n2[1:])]
+                    if set(objs) != set(g.critical_path_edges_set) or len(objs) != len(g.critical_path_edges_set):
+                        stale = [(e.begin, e.end, T(e.weight)) for e in g.critical_path_edges_set if e not in set(objs)][:4]
+                        problems.append(f"critical_path_edges_set is not the set of edges on the recomputed path; not on it (begin, end, weight): {stale}")
+                    bd = g.get_critical_path_breakdown()
+                    tot, want = sum(T(x) for x in bd["duration"]), sum(T(o.weight) for o in objs)
+                    if len(bd) != len(objs) or tot != want:
+                        problems.append(f"{len(bd)} breakdown rows adding up to {tot}; the recomputed path has {len(objs)} edges weighing {want}")
+                    import contextlib, io
+                    with contextlib.redirect_stdout(io.StringIO()):
+                        sm = g.summary()
+                    tot_pct = sum(float(x) for _, x in sm.items())
+                    if abs(tot_pct - 100.0) > 1e-6:
+                        problems.append(f"summary percentages add up to {tot_pct}")
+                res["whatif"] = {"edge": [int(u), int(v)], "problems": problems}
+        except Exception as e:
+            res["whatif"] = {"edge": None, "problems": ["raised " + type(e).__name__ + ": " + str(e)[:200]]}
     return res
 
 
@@ -94,6 +129,8 @@ def compare(case, impl, model):
             disc.append(f"breakdown row {r} does not describe critical edge {p['u']}->{p['v']} (weight {p['w']}, type {p['ty']})")
         if (-1 if r["event_idx"] is None else r["event_idx"]) != p["attr"]:
             disc.append(f"breakdown row attributes edge {p['u']}->{p['v']} to {r['event_idx']}, get_event_attribution_for_edge says {p['attr']}")
+    for pr in (impl.get("whatif") or {}).get("problems", []):
+        disc.append(f"after replacing edge {impl['whatif']['edge']} of the path by a copy one unit lighter and calling critical_path() again: {pr} {w}")
     host = []
     if len(model) == 2 and isinstance(model[0], list):
         model, host = model[0], model[1]
